@@ -18,7 +18,23 @@ Lemma(b, k) ==
        ELSE /\ Accepted(Flip(h, b, k))
             /\ Changed(h, Flip(h, b, k)) = Influence(b, k)
             /\ (FieldOfByte(b) = "date") =>
-                 DateOf(Flip(h, b, k)) # DateOf(h)
+                 /\ DateOf(Flip(h, b, k)) # DateOf(h)
+                 /\ UnixOf(DateOf(Flip(h, b, k))) # UnixOf(DateOf(h))     \* ... and moves the exposed instant
+            /\ (FieldOfByte(b) # "date") => UnixOf(DateOf(Flip(h, b, k))) = UnixOf(DateOf(h))
+
+\* the calendar arithmetic itself, on dates whose day number is public knowledge
+ASSUME UnixOf(<<1970, 1, 1, 0, 0, 0>>) = <<0, 0>>
+ASSUME UnixOf(<<2000, 3, 1, 0, 0, 0>>) = <<11017, 0>>
+ASSUME UnixOf(<<2001, 9, 9, 1, 46, 40>>) = <<11574, 6400>>          \* 10^9 seconds
+ASSUME UnixOf(<<1969, 12, 31, 23, 59, 59>>) = <<-1, 86399>>
+ASSUME UnixOf(<<1900, 3, 1, 0, 0, 0>>)[1] - UnixOf(<<1900, 2, 28, 0, 0, 0>>)[1] = 1   \* 1900 is not a leap year
+ASSUME UnixOf(<<2000, 3, 1, 0, 0, 0>>)[1] - UnixOf(<<2000, 2, 28, 0, 0, 0>>)[1] = 2   \* 2000 is
+ASSUME \A y \in {0, 1, 1999, 2024, 65535} :
+          /\ UnixOf(<<y, 13, 1, 0, 0, 0>>) = UnixOf(<<y + 1, 1, 1, 0, 0, 0>>)          \* month carries into year
+          /\ UnixOf(<<y, 0, 1, 0, 0, 0>>) = UnixOf(<<y - 1, 12, 1, 0, 0, 0>>)
+          /\ UnixOf(<<y, 1, 32, 0, 0, 0>>) = UnixOf(<<y, 2, 1, 0, 0, 0>>)              \* day, hour, minute, second carry
+          /\ UnixOf(<<y, 1, 0, 0, 0, 0>>) = UnixOf(<<y - 1, 12, 31, 0, 0, 0>>)
+          /\ UnixOf(<<y, 5, 5, 24, 60, 60>>) = UnixOf(<<y, 5, 6, 1, 1, 0>>)
 
 Init == pos = 0
 Next == pos < 1023 /\ pos' = pos + 1
